@@ -1,11 +1,11 @@
 #!/bin/sh
 # Run once after a fresh restore, offline. Warms Go's build cache (standard library,
-# -race runtime, porcupine, the harness) so that later ./check runs only recompile what
-# changed. Builds nothing that later commands depend on.
+# -race runtime, porcupine, the harness, the C driver's objects are not cached) so that
+# later ./check runs only recompile what changed. Builds nothing that later commands
+# depend on and writes no evidence.
 set -e
 cd "$(dirname "$0")"
 export GOFLAGS=-mod=mod GOPROXY=off GOSUMDB=off GOTOOLCHAIN=local
-./check C01 quick --scale 0.02 >/dev/null 2>&1 || true
-./check C19 quick --scale 0.1 >/dev/null 2>&1 || true
-git checkout -- evidence 2>/dev/null || true
+VERIF_NO_EVIDENCE=1 ./check C01 quick --scale 0.02 >/dev/null 2>&1 || true
+VERIF_NO_EVIDENCE=1 ./check C19 quick --scale 0.1 >/dev/null 2>&1 || true
 echo "setup done"
